@@ -22,6 +22,11 @@ def ofByteArray (a : ByteArray) : Buf := ⟨a.size, fun i => (a.get! i).toNat⟩
 
 def empty : Buf := ⟨0, fun _ => 0⟩
 
+/-- array-backed buffer: O(1) reads (used where many chunks are concatenated) -/
+def ofArray (a : Array Nat) : Buf := ⟨a.size, fun i => a.getD i 0⟩
+
+def toArray (b : Buf) : Array Nat := Array.ofFn (n := b.size) fun i => b.rd i
+
 /-- Python `b[lo:hi]` for `0 ≤ lo`, `0 ≤ hi` (clamped, possibly short or empty). -/
 def slice (b : Buf) (lo hi : Nat) : Buf :=
   let lo' := min lo b.size
